@@ -475,6 +475,7 @@ func protoTargets(r *h.Rand, desc *dproto.TypeDescriptor, nums ...int32) []c06Ta
 			var out []pg.PathNode
 			root.Children(&out, true, opts, desc)
 		}},
+		{"proto.generic.Value.MarshalTo", func(in []byte) { pg.NewRootValue(desc, in).MarshalTo(desc, opts) }},
 		{"p2j.Do", func(in []byte) { cv := p2j.NewBinaryConv(copts); cv.Do(context.Background(), desc, in) }},
 		{"proto.BinaryProtocol.ReadAnyWithDesc", func(in []byte) {
 			p := dbin.NewBinaryProtol(in)
